@@ -232,6 +232,37 @@ impl Ctx<'_> {
             ("a := (() -> int|string { return 1 })(); b := (() -> any { return 1 })(); a == b", true),
             ("a := (() -> [int|string] { return [1] })(); b := (() -> [int] { return [1] })(); a == b", true),
             ("a := (() -> [int|string] { return [] })(); b := (() -> [float] { return [] })(); a == b", true),
+            // identity of functions and cells seen from inside a function (its own name, captured names, arguments)
+            ("f := (g: any) -> bool { return g == f }; f(f)", true),
+            ("f := (g: any) -> bool { return g == f }; h := f; h(f)", true),
+            ("f := (g: any) -> bool { return g == f }; h := f; f(h)", true),
+            ("f := (g: any) -> bool { return g == f }; k := (g: any) -> bool { return g == k }; f(k)", false),
+            ("f := (g: any) -> bool { return [g] == [f] }; f(f)", true),
+            ("f := (g: any) -> bool { return (g, 1) == (f, 1) }; f(f)", true),
+            ("f := (g: any) -> bool { return struct{a := g} == struct{a := f} }; f(f)", true),
+            ("f := (n: int, g: any) -> bool { if n > 0 { return f(n - 1, g) } return g == f }; f(2, f)", true),
+            ("f := (r: [any]) -> bool { return r[0] == f }; f([f])", true),
+            ("f := (g: any) -> bool { return match g { f => true, => false, } }; f(f)", true),
+            ("f := (g: any) -> bool { return match g { f => true, => false, } }; f(1)", false),
+            ("f := (g: any) -> bool { return match [g] { [f] => true, => false, } }; f(f)", true),
+            ("c := mut 1; f := (d: any) -> bool { return d == c }; f(c)", true),
+            ("c := mut 1; f := (d: any) -> bool { return d == c }; f(mut 1)", false),
+            ("c := mut 1; f := (d: any) -> bool { return [d] == [c] }; f(c)", true),
+            ("k := (x: int) -> int { return x }; f := (d: any) -> bool { return d == k }; f(k)", true),
+            ("k := (x: int) -> int { return x }; f := (d: any) -> bool { return d == k }; f((x: int) -> int { return x })", false),
+            ("mk := () -> () -> int { return () -> int { return 1 } }; a := mk(); b := mk(); a == b", false),
+            ("mk := () -> () -> int { return () -> int { return 1 } }; a := mk(); b := a; a == b", true),
+            ("it := [1, 2]~; f := (j: any) -> bool { return j == it }; f(it)", true),
+            // arrays holding NaN: no array that contains it equals anything, itself and its aliases included
+            ("n := 0.0 / 0.0; a := [1.5, n]; a == a", false),
+            ("n := 0.0 / 0.0; a := [1.5, n]; b := a; a == b", false),
+            ("n := 0.0 / 0.0; a := [1.5, n]; b := a; [a] == [b]", false),
+            ("n := 0.0 / 0.0; a := [1.5, n]; b := a; (a, 1) == (b, 1)", false),
+            ("n := 0.0 / 0.0; a := [1.5, n]; (a + []) == a", false),
+            ("n := 0.0 / 0.0; a := [1.5, n]; a[:] == a", false),
+            ("n := 0.0 / 0.0; a := (n, 1); b := a; a == b", false),
+            ("n := 0.0 / 0.0; a := struct{x := n}; b := a; a == b", false),
+            ("n := 0.0 / 0.0; a := [1.5, n]; f := (x: any, y: any) -> bool { return x == y }; f(a, a)", false),
         ];
         for (src, want) in cases {
             for hidden in [false, true] {
@@ -245,7 +276,7 @@ impl Ctx<'_> {
                 self.rep.evaluations += 2;
                 self.rep.distinct_case(&text);
                 for (t, w, op) in [(&text, want, "=="), (&neg, if src.contains("!=") { want } else { !want }, "!=")] {
-                    if src.contains("!=") && op == "!=" {
+                    if (src.contains("!=") || !text.contains(" == ")) && op == "!=" {
                         continue;
                     }
                     match real::parse_exec(&format!("{PRELUDE}{t}"), true) {
